@@ -1,3 +1,593 @@
-use vh::runner::Ctx;
+//! C13 — Command::spawn returns only in the caller; the child runs exactly what was
+//! configured, or the caller gets that step's errno and no process is left behind.
+use std::os::unix::ffi::OsStrExt;
+use std::os::unix::fs::MetadataExt;
 
-pub fn run(_ctx: &Ctx) {}
+use proptest::prelude::*;
+use rusl::platform::Fd;
+use rusl::string::unix_str::{UnixStr, UnixString};
+use serde::{Deserialize, Serialize};
+use tiny_std::io::{Read, Write};
+use tiny_std::process::{Command, Stdio};
+
+use sc::verif::{Action, Rule};
+use vh::runner::{no_panic, CaseReport, CaseResult, Ctx, Failure};
+use vh::util::{escape, BStr};
+use vh::{ensure, fail};
+
+#[derive(Debug, Clone, Copy, Serialize, Deserialize, PartialEq)]
+pub enum Fault {
+    None,
+    /// parent side: nth pipe2 call fails
+    Pipe2(u8, i32),
+    /// parent side: open of /dev/null fails (nth)
+    OpenNull(u8, i32),
+    Fork(i32),
+    /// parent side: the read on the sync pipe is interrupted n times first
+    ReadEintr(u8),
+    /// (not generated: read(2) on a pipe has no plausible error besides EINTR; with a forced EIO the
+    /// parent waits for a child that may itself be waiting for its stdin pipe - kept for replays)
+    ReadErr(i32),
+    /// child side (plan inherited through fork)
+    Dup(u8, i32),
+    Chdir(i32),
+    Setuid(i32),
+    Setgid(i32),
+    Setpgid(i32),
+    Execve(i32),
+}
+
+#[derive(Debug, Clone, Serialize, Deserialize)]
+pub struct SpawnCase {
+    /// 0 helper binary, 1 missing path, 2 existing non-executable file
+    pub prog: u8,
+    pub args: Vec<BStr>,
+    /// None = leave the environment knob untouched; Some = provide exactly these entries
+    pub env: Option<Vec<BStr>>,
+    /// 0 untouched, 1 existing directory, 2 missing directory
+    pub cwd: u8,
+    pub pgroup: bool,
+    pub ids: bool,
+    /// per stream: 0 untouched, 1 Inherit, 2 Null, 3 MakePipe, 4 RawFd
+    pub stdio: [u8; 3],
+    /// pre-exec closures: 0 = Ok, n > 0 = Err carrying errno n (as an OS error of a failing call)
+    pub closures: Vec<u8>,
+    pub exit_code: u8,
+    pub fault: Fault,
+}
+
+fn helper_path() -> std::path::PathBuf {
+    std::env::current_exe().unwrap().parent().unwrap().join("dumpenv")
+}
+
+fn us(b: &[u8]) -> UnixString {
+    UnixString::try_from_bytes(b).expect("NUL-free")
+}
+
+fn errno_of(e: &tiny_std::Error) -> Option<i32> {
+    match e {
+        tiny_std::Error::Os { code, .. } => Some(code.raw()),
+        _ => None,
+    }
+}
+
+fn unhex(s: &str) -> Vec<u8> {
+    (0..s.len() / 2).map(|i| u8::from_str_radix(&s[2 * i..2 * i + 2], 16).unwrap_or(0)).collect()
+}
+
+struct Ident {
+    dev: u64,
+    ino: u64,
+}
+
+fn fstat_ident(fd: i32) -> Option<Ident> {
+    unsafe {
+        let mut st: libc::stat = core::mem::zeroed();
+        if libc::fstat(fd, &mut st) == 0 {
+            Some(Ident { dev: st.st_dev, ino: st.st_ino })
+        } else {
+            None
+        }
+    }
+}
+
+/// Reap everything; returns (number of zombies reaped, number of children still running).
+fn reap_all() -> (u32, u32) {
+    let mut zombies = 0;
+    let mut running = 0;
+    loop {
+        let mut st = 0;
+        let r = unsafe { libc::waitpid(-1, &mut st, libc::WNOHANG) };
+        if r > 0 {
+            zombies += 1;
+            continue;
+        }
+        if r == 0 {
+            // children exist but have not exited: give them a moment, then kill
+            running += 1;
+            unsafe {
+                libc::kill(0, 0);
+            }
+            std::thread::sleep(std::time::Duration::from_millis(20));
+            let r2 = unsafe { libc::waitpid(-1, &mut st, libc::WNOHANG) };
+            if r2 == 0 {
+                // still there: terminate our direct children individually
+                if let Ok(rd) = std::fs::read_dir("/proc") {
+                    let me = std::process::id();
+                    for e in rd.flatten() {
+                        if let Ok(pid) = e.file_name().to_string_lossy().parse::<i32>() {
+                            if let Ok(stat) = std::fs::read_to_string(format!("/proc/{pid}/stat")) {
+                                let after = stat.rsplit(')').next().unwrap_or("");
+                                let f: Vec<&str> = after.split_whitespace().collect();
+                                if f.len() > 1 && f[1].parse::<u32>().ok() == Some(me) {
+                                    unsafe { libc::kill(pid, libc::SIGKILL) };
+                                }
+                            }
+                        }
+                    }
+                }
+                unsafe { libc::waitpid(-1, &mut st, 0) };
+            } else if r2 > 0 {
+                continue;
+            }
+            continue;
+        }
+        break; // -1: ECHILD
+    }
+    (zombies, running)
+}
+
+pub fn check_spawn(ctx: &Ctx, c: &SpawnCase) -> CaseResult {
+    let mut rep = CaseReport::new();
+    let root = std::path::PathBuf::from(format!("/tmp/verif-c13-{}-{}", std::process::id(), ctx.worker));
+    let _ = std::fs::remove_dir_all(&root);
+    std::fs::create_dir_all(root.join("cwd")).unwrap();
+    std::fs::write(root.join("notexec"), b"#!/bin/false\n").unwrap();
+    let res = run_case(c, &root, &mut rep);
+    sc::verif::clear_plan();
+    let (zombies, running) = reap_all();
+    let _ = std::fs::remove_dir_all(&root);
+    res?;
+    ensure!(running == 0, "spawn|process left running after spawn returned", "{running} child process(es) still running after the call sequence completed");
+    ensure!(zombies == 0, "spawn|child not reaped", "{zombies} zombie child(ren) left after spawn/wait returned");
+    Ok(rep)
+}
+
+fn run_case(c: &SpawnCase, root: &std::path::Path, rep: &mut CaseReport) -> Result<(), Failure> {
+    let dump_path = root.join("dump.json");
+    let helper = helper_path();
+    let bin_bytes: Vec<u8> = match c.prog {
+        0 => helper.as_os_str().as_bytes().to_vec(),
+        1 => root.join("no-such-binary").as_os_str().as_bytes().to_vec(),
+        _ => root.join("notexec").as_os_str().as_bytes().to_vec(),
+    };
+    let bin = us(&bin_bytes);
+    // helper protocol: argv[1] dump path, argv[2] exit code, argv[3] flags
+    let mut flags = String::from("-");
+    if c.stdio[0] == 3 || c.stdio[0] == 2 {
+        flags.push('i');
+    }
+    if c.stdio[1] == 3 {
+        flags.push('o');
+    }
+    if c.stdio[2] == 3 {
+        flags.push('e');
+    }
+    let mut argv_model: Vec<Vec<u8>> = vec![bin_bytes.clone(), dump_path.as_os_str().as_bytes().to_vec(), c.exit_code.to_string().into_bytes(), flags.clone().into_bytes()];
+    argv_model.extend(c.args.iter().map(|a| a.0.clone()));
+    let arg_strings: Vec<UnixString> = argv_model[1..].iter().map(|a| us(a)).collect();
+    let cwd_bytes = if c.cwd == 1 { root.join("cwd").as_os_str().as_bytes().to_vec() } else { root.join("missing-dir").as_os_str().as_bytes().to_vec() };
+    let cwd = us(&cwd_bytes);
+
+    let mut cmd = Command::new(&bin).map_err(|e| Failure::new("Command::new|error", format!("{e}")))?;
+    for a in &arg_strings {
+        let r: &UnixStr = a;
+        cmd.arg(r);
+    }
+    if let Some(env) = &c.env {
+        for e in env {
+            cmd.env(us(&e.0));
+        }
+    }
+    if c.cwd != 0 {
+        cmd.cwd(&cwd);
+    }
+    if c.pgroup {
+        cmd.pgroup(0);
+    }
+    let (uid, gid) = unsafe { (libc::getuid(), libc::getgid()) };
+    if c.ids {
+        cmd.uid(uid);
+        cmd.gid(gid);
+    }
+    // raw fds for stdio mode 4: distinct temp files
+    let mut raw: [Option<(i32, Ident)>; 3] = [None, None, None];
+    for i in 0..3 {
+        if c.stdio[i] == 4 {
+            let p = std::ffi::CString::new(root.join(format!("raw{i}")).as_os_str().as_bytes()).unwrap();
+            let fd = unsafe { libc::open(p.as_ptr(), libc::O_CREAT | libc::O_RDWR | libc::O_CLOEXEC, 0o644) };
+            assert!(fd >= 0);
+            raw[i] = Some((fd, fstat_ident(fd).unwrap()));
+        }
+    }
+    let mk = |i: usize| -> Option<Stdio> {
+        match c.stdio[i] {
+            1 => Some(Stdio::Inherit),
+            2 => Some(Stdio::Null),
+            3 => Some(Stdio::MakePipe),
+            4 => Some(Stdio::RawFd(Fd::try_new(raw[i].as_ref().unwrap().0).unwrap())),
+            _ => None,
+        }
+    };
+    if let Some(s) = mk(0) {
+        cmd.stdin(s);
+    }
+    if let Some(s) = mk(1) {
+        cmd.stdout(s);
+    }
+    if let Some(s) = mk(2) {
+        cmd.stderr(s);
+    }
+    for &cl in &c.closures {
+        unsafe {
+            cmd.pre_exec(move || {
+                if cl == 0 {
+                    Ok(())
+                } else {
+                    // an OS error as a failing call would produce it: chdir into a path that
+                    // does not exist gives ENOENT; for other codes use a forced syscall result
+                    sc::verif::plan(vec![Rule { nr: Some(sc::nr::CHDIR), nth: None, action: Action::ForceRet(sc::verif::neg_errno(i32::from(cl))), times: 1 }]);
+                    let r = rusl::unistd::chdir(UnixStr::from_str_checked("/\0"));
+                    sc::verif::clear_plan();
+                    r.map_err(tiny_std::Error::from)
+                }
+            });
+        }
+    }
+
+    // expected outcome (first failing step in execution order)
+    let parent_std = [unsafe { libc::dup(0) }, -1, -1];
+    unsafe { libc::close(parent_std[0]) };
+    let mut expect_err: Option<(String, Option<i32>)> = None; // (step, errno)
+    let mut rules: Vec<Rule> = Vec::new();
+    let force = |nr: usize, nth: Option<usize>, e: i32, times: usize| Rule { nr: Some(nr), nth, action: Action::ForceRet(sc::verif::neg_errno(e)), times };
+    let n_pipes = c.stdio.iter().filter(|&&s| s == 3).count() + 1; // + sync pipe
+    let n_null = c.stdio.iter().filter(|&&s| s == 2).count();
+    let mut parent_fault = false;
+    let mut read_fault = false;
+    match c.fault {
+        Fault::None => {}
+        Fault::Pipe2(k, e) => {
+            if (k as usize) < n_pipes {
+                rules.push(force(sc::nr::PIPE2, Some(k as usize), e, 1));
+                expect_err = Some(("pipe2".into(), Some(e)));
+                parent_fault = true;
+            }
+        }
+        Fault::OpenNull(k, e) => {
+            if (k as usize) < n_null {
+                rules.push(force(sc::nr::OPENAT, Some(k as usize), e, 1));
+                rules.push(force(sc::nr::OPEN, Some(k as usize), e, 1));
+                expect_err = Some(("open /dev/null".into(), Some(e)));
+                parent_fault = true;
+            }
+        }
+        Fault::Fork(e) => {
+            rules.push(force(sc::nr::FORK, Some(0), e, 1));
+            expect_err = Some(("fork".into(), Some(e)));
+            parent_fault = true;
+        }
+        Fault::ReadEintr(n) => {
+            rules.push(Rule { nr: Some(sc::nr::READ), nth: None, action: Action::ForceRet(sc::verif::neg_errno(libc::EINTR)), times: n as usize });
+        }
+        Fault::ReadErr(e) => {
+            rules.push(force(sc::nr::READ, Some(0), e, 1));
+            read_fault = true;
+        }
+        _ => {}
+    }
+    // child-side steps in order: dup2 x (configured streams), chdir, setuid, setgid, setpgid, closures, execve
+    if !parent_fault {
+        let n_dups = c.stdio.iter().filter(|&&s| s >= 2).count();
+        let mut first: Option<(String, Option<i32>)> = None;
+        let mut consider = |step: &str, e: Option<i32>, first: &mut Option<(String, Option<i32>)>| {
+            if first.is_none() {
+                *first = Some((step.to_string(), e));
+            }
+        };
+        if let Fault::Dup(k, e) = c.fault {
+            if (k as usize) < n_dups {
+                rules.push(force(sc::nr::DUP3, Some(k as usize), e, 1));
+                rules.push(force(sc::nr::DUP2, Some(k as usize), e, 1));
+                consider("dup2", Some(e), &mut first);
+            }
+        }
+        if c.cwd != 0 {
+            if let Fault::Chdir(e) = c.fault {
+                rules.push(force(sc::nr::CHDIR, Some(0), e, 1));
+                consider("chdir", Some(e), &mut first);
+            } else if c.cwd == 2 {
+                consider("chdir", Some(libc::ENOENT), &mut first);
+            }
+        }
+        if c.ids {
+            if let Fault::Setuid(e) = c.fault {
+                rules.push(force(sc::nr::SETUID, Some(0), e, 1));
+                consider("setuid", Some(e), &mut first);
+            }
+            if let Fault::Setgid(e) = c.fault {
+                rules.push(force(sc::nr::SETGID, Some(0), e, 1));
+                consider("setgid", Some(e), &mut first);
+            }
+        }
+        if c.pgroup {
+            if let Fault::Setpgid(e) = c.fault {
+                rules.push(force(sc::nr::SETPGID, Some(0), e, 1));
+                consider("setpgid", Some(e), &mut first);
+            }
+        }
+        for &cl in &c.closures {
+            if cl != 0 {
+                consider("pre_exec closure", Some(i32::from(cl)), &mut first);
+                break;
+            }
+        }
+        if let Fault::Execve(e) = c.fault {
+            rules.push(force(sc::nr::EXECVE, Some(0), e, 1));
+            consider("execve", Some(e), &mut first);
+        } else if c.prog == 1 {
+            consider("execve", Some(libc::ENOENT), &mut first);
+        } else if c.prog == 2 {
+            consider("execve", Some(libc::EACCES), &mut first);
+        }
+        if expect_err.is_none() {
+            expect_err = first;
+        }
+    }
+
+    // single-return marker
+    let mut mp = [0i32; 2];
+    unsafe { libc::pipe2(mp.as_mut_ptr(), libc::O_CLOEXEC | libc::O_NONBLOCK) };
+    let parent_pid = unsafe { libc::getpid() };
+
+    sc::verif::install();
+    sc::verif::plan(rules);
+    let result = no_panic("Command::spawn", || cmd.spawn());
+    sc::verif::clear_plan();
+    if unsafe { libc::getpid() } != parent_pid {
+        // we are a child that spawn() returned into: tell the parent and vanish
+        unsafe {
+            libc::write(mp[1], b"X".as_ptr().cast(), 1);
+            libc::_exit(0);
+        }
+    }
+    let result = match result {
+        Ok(r) => r,
+        Err(f) => {
+            unsafe {
+                libc::close(mp[0]);
+                libc::close(mp[1]);
+            }
+            return Err(f);
+        }
+    };
+
+    let outcome = (|| -> Result<(), Failure> {
+        match (result, &expect_err) {
+            (Ok(mut child), None) => {
+                // interact with pipes first so the helper can finish
+                if c.stdio[0] == 3 {
+                    let mut p = child.stdin.take().ok_or_else(|| Failure::new("spawn|missing stdin pipe", "MakePipe requested but Child.stdin is None".to_string()))?;
+                    p.write_all(b"IN").map_err(|e| Failure::new("spawn|stdin pipe write failed", format!("{e}")))?;
+                    drop(p);
+                } else {
+                    ensure!(child.stdin.is_none(), "spawn|unexpected stdin pipe", "Child.stdin is Some without MakePipe");
+                }
+                let mut out = Vec::new();
+                if c.stdio[1] == 3 {
+                    let p = child.stdout.as_mut().ok_or_else(|| Failure::new("spawn|missing stdout pipe", "MakePipe requested but Child.stdout is None".to_string()))?;
+                    p.read_to_end(&mut out).map_err(|e| Failure::new("spawn|stdout pipe read failed", format!("{e}")))?;
+                    ensure!(out == b"OUT", "spawn|stdout pipe not connected to the child", "read {:?} from the child's stdout pipe, expected \"OUT\"", escape(&out));
+                }
+                if c.stdio[2] == 3 {
+                    let mut errb = Vec::new();
+                    let p = child.stderr.as_mut().ok_or_else(|| Failure::new("spawn|missing stderr pipe", "MakePipe requested but Child.stderr is None".to_string()))?;
+                    p.read_to_end(&mut errb).map_err(|e| Failure::new("spawn|stderr pipe read failed", format!("{e}")))?;
+                    ensure!(errb == b"ERR", "spawn|stderr pipe not connected to the child", "read {:?} from the child's stderr pipe, expected \"ERR\"", escape(&errb));
+                }
+                let pid = child.get_pid();
+                let status = no_panic("Child::wait", || child.wait())?.map_err(|e| Failure::new("Child::wait|error", format!("{e}")))?;
+                let code = i32::from(c.exit_code);
+                ensure!(status == code << 8 || status == code, "Child::wait|wrong exit status", "wait() returned {status}, the child exited with code {code}");
+                let again = no_panic("Child::try_wait", || child.try_wait())?.map_err(|e| Failure::new("Child::try_wait|error after wait", format!("{e}")))?;
+                ensure!(again == Some(status), "Child::try_wait|differs from wait", "try_wait after wait returned {again:?}, wait returned {status}");
+                // the dump
+                let txt = std::fs::read_to_string(&dump_path).map_err(|e| Failure::new("spawn|child did not run the requested program", format!("spawn returned Ok but the helper left no dump: {e}")))?;
+                let d: serde_json::Value = serde_json::from_str(&txt).map_err(|e| Failure::new("harness|dump parse", e.to_string()))?;
+                let got_args: Vec<Vec<u8>> = d["args"].as_array().unwrap().iter().map(|a| unhex(a.as_str().unwrap())).collect();
+                ensure!(got_args == argv_model, "spawn|argv differs", "child saw argv {:?}, configured {:?}", got_args.iter().map(|a| escape(a)).collect::<Vec<_>>(), argv_model.iter().map(|a| escape(a)).collect::<Vec<_>>());
+                if let Some(env) = &c.env {
+                    let raw = unhex(d["raw_env"].as_str().unwrap());
+                    let got: Vec<Vec<u8>> = if raw.is_empty() { vec![] } else { raw[..raw.len() - usize::from(raw.last() == Some(&0))].split(|&b| b == 0).map(|s| s.to_vec()).collect() };
+                    let want: Vec<Vec<u8>> = env.iter().map(|e| e.0.clone()).collect();
+                    ensure!(got == want, "spawn|environment differs", "child environment {:?}, configured {:?}", got.iter().map(|a| escape(a)).collect::<Vec<_>>(), want.iter().map(|a| escape(a)).collect::<Vec<_>>());
+                    rep.class("env-provided");
+                }
+                let got_cwd = unhex(d["cwd"].as_str().unwrap());
+                if c.cwd == 1 {
+                    let want = std::fs::canonicalize(root.join("cwd")).unwrap();
+                    ensure!(got_cwd == want.as_os_str().as_bytes(), "spawn|cwd differs", "child cwd {:?}, configured {:?}", escape(&got_cwd), want);
+                } else {
+                    let mine = std::env::current_dir().unwrap();
+                    ensure!(got_cwd == mine.as_os_str().as_bytes(), "spawn|cwd changed without being configured", "child cwd {:?}, parent cwd {:?}", escape(&got_cwd), mine);
+                }
+                ensure!(d["pid"].as_i64() == Some(i64::from(pid)), "spawn|pid differs", "Child::get_pid {pid}, child saw {:?}", d["pid"]);
+                ensure!(d["ppid"].as_i64() == Some(i64::from(parent_pid)), "spawn|not a child of the caller", "child's parent is {:?}, caller is {parent_pid}", d["ppid"]);
+                if c.pgroup {
+                    ensure!(d["pgid"].as_i64() == Some(i64::from(pid)), "spawn|process group differs", "pgroup(0) configured, child pgid {:?}, pid {pid}", d["pgid"]);
+                } else {
+                    let mine = unsafe { libc::getpgid(0) };
+                    ensure!(d["pgid"].as_i64() == Some(i64::from(mine)), "spawn|process group changed without being configured", "child pgid {:?}, parent pgid {mine}", d["pgid"]);
+                }
+                ensure!(d["uid"].as_u64() == Some(u64::from(uid)) && d["gid"].as_u64() == Some(u64::from(gid)), "spawn|ids differ", "uid/gid {:?}/{:?}", d["uid"], d["gid"]);
+                if c.stdio[0] == 3 {
+                    ensure!(unhex(d["stdin"].as_str().unwrap()) == b"IN", "spawn|stdin pipe not connected to the child", "child read {:?} from stdin, parent wrote \"IN\"", d["stdin"]);
+                }
+                // descriptors in the child: exactly 0,1,2 (+ what the helper opened itself)
+                let fds = d["fds"].as_array().unwrap();
+                let mut nums: Vec<i64> = fds.iter().map(|f| f["fd"].as_i64().unwrap()).collect();
+                nums.sort_unstable();
+                let extra: Vec<i64> = nums.iter().copied().filter(|&n| n > 2).collect();
+                ensure!(extra.is_empty(), "spawn|descriptor leaked into the child", "child has descriptors {nums:?}; beyond 0,1,2: {:?}", fds.iter().filter(|f| f["fd"].as_i64().unwrap() > 2).map(|f| format!("{}->{}", f["fd"], String::from_utf8_lossy(&unhex(f["link"].as_str().unwrap())))).collect::<Vec<_>>());
+                for i in 0..3usize {
+                    let f = fds.iter().find(|f| f["fd"].as_i64() == Some(i as i64));
+                    let Some(f) = f else {
+                        fail!("spawn|standard stream closed in the child", "fd {i} is not open in the child");
+                    };
+                    let (dev, ino, rdev) = (f["dev"].as_u64().unwrap(), f["ino"].as_u64().unwrap(), f["rdev"].as_u64().unwrap());
+                    match c.stdio[i] {
+                        2 => {
+                            let m = std::fs::metadata("/dev/null").unwrap();
+                            ensure!(rdev == m.rdev(), "spawn|Null stream is not /dev/null", "fd {i} in the child is {}", String::from_utf8_lossy(&unhex(f["link"].as_str().unwrap())));
+                        }
+                        4 => {
+                            let id = &raw[i].as_ref().unwrap().1;
+                            ensure!(dev == id.dev && ino == id.ino, "spawn|RawFd stream differs", "fd {i} in the child is not the descriptor that was passed");
+                        }
+                        0 | 1 => {
+                            let mine = fstat_ident(i as i32).unwrap();
+                            ensure!(dev == mine.dev && ino == mine.ino, "spawn|inherited stream differs", "fd {i} in the child is not the parent's fd {i}");
+                        }
+                        _ => {}
+                    }
+                }
+                rep.class("ok-dump-verified");
+                Ok(())
+            }
+            (Ok(mut child), Some((step, e))) => {
+                let _ = child.wait();
+                if read_fault {
+                    return Ok(());
+                }
+                Err(Failure::new(format!("spawn|Ok although {step} failed"), format!("spawn returned Ok(child) although {step} failed with errno {e:?}; dump present: {}", dump_path.exists())))
+            }
+            (Err(_), Some(_)) if read_fault => {
+                rep.class("sync-pipe-read-error");
+                Ok(())
+            }
+            (Err(e), Some((step, want))) => {
+                let got = errno_of(&e);
+                ensure!(got == *want, format!("spawn|wrong errno for failing {step}"), "{step} failed with errno {want:?}, spawn returned {e}");
+                ensure!(!dump_path.exists() || step == "execve-after", "spawn|program ran although spawn failed", "the helper ran although {step} failed");
+                rep.class("err-step-errno-verified");
+                Ok(())
+            }
+            (Err(e), None) => {
+                if read_fault {
+                    rep.class("sync-pipe-read-error");
+                    return Ok(());
+                }
+                Err(Failure::new("spawn|spurious failure", format!("every step can succeed but spawn returned {e}")))
+            }
+        }
+    })();
+
+    // marker check (after everything is reaped by the caller)
+    let mut b = [0u8; 8];
+    let n = unsafe { libc::read(mp[0], b.as_mut_ptr().cast(), 8) };
+    unsafe {
+        libc::close(mp[0]);
+        libc::close(mp[1]);
+    }
+    for r in raw.iter().flatten() {
+        // ownership of RawFd is undocumented: close it if spawn did not
+        if unsafe { libc::fcntl(r.0, libc::F_GETFD) } >= 0 {
+            rep.class("rawfd-left-open-by-spawn");
+            unsafe { libc::close(r.0) };
+        } else {
+            rep.class("rawfd-closed-by-spawn");
+        }
+    }
+    if n > 0 {
+        return Err(Failure::new("spawn|returned in the child process", format!("spawn returned in {n} process(es) other than the caller (failing step: {:?})", expect_err)));
+    }
+    outcome?;
+    let knobs = usize::from(c.cwd != 0) + usize::from(c.pgroup) + usize::from(c.ids) + c.stdio.iter().filter(|&&s| s != 0).count() + usize::from(c.env.is_some()) + usize::from(!c.args.is_empty()) + c.closures.len();
+    rep.nontrivial_if(knobs >= 1);
+    if let Some((step, _)) = &expect_err {
+        rep.class(match step.as_str() {
+            "pipe2" => "fail-pipe2",
+            "open /dev/null" => "fail-open-null",
+            "fork" => "fail-fork",
+            "dup2" => "fail-child-dup2",
+            "chdir" => "fail-child-chdir",
+            "setuid" => "fail-child-setuid",
+            "setgid" => "fail-child-setgid",
+            "setpgid" => "fail-child-setpgid",
+            "pre_exec closure" => "fail-child-closure",
+            _ => "fail-child-execve",
+        });
+    }
+    rep.class_if(matches!(c.fault, Fault::ReadEintr(n) if n > 0), "sync-read-eintr");
+    rep.class_if(c.stdio.iter().any(|&s| s == 3), "stdio-pipe");
+    rep.class_if(c.stdio.iter().any(|&s| s == 2), "stdio-null");
+    rep.class_if(c.stdio.iter().any(|&s| s == 4), "stdio-rawfd");
+    let _ = parent_std;
+    Ok(())
+}
+
+fn arg_bytes() -> impl Strategy<Value = BStr> {
+    prop_oneof![
+        6 => prop::collection::vec(prop_oneof![6 => prop::sample::select(vec![b'a', b'-', b'=', b' ', b'/']), 1 => 1u8..=255u8], 0..12),
+        1 => prop::collection::vec(1u8..=255u8, 200..2000),
+    ]
+    .prop_map(BStr)
+}
+
+fn env_entry() -> impl Strategy<Value = BStr> {
+    (prop::collection::vec(prop::sample::select(vec![b'A', b'B', b'_', b'x']), 1..6), prop::collection::vec(prop_oneof![5 => prop::sample::select(vec![b'v', b'=', b' ', b'/']), 1 => 1u8..=255u8], 0..10)).prop_map(|(mut k, v)| {
+        k.push(b'=');
+        k.extend(v);
+        BStr(k)
+    })
+}
+
+fn errno_strategy(list: &'static [i32]) -> impl Strategy<Value = i32> {
+    prop::sample::select(list.to_vec())
+}
+
+fn fault_strategy() -> impl Strategy<Value = Fault> {
+    prop_oneof![
+        14 => Just(Fault::None),
+        2 => (0u8..4, errno_strategy(&[libc::EMFILE, libc::ENFILE, libc::ENOMEM])).prop_map(|(k, e)| Fault::Pipe2(k, e)),
+        1 => (0u8..3, errno_strategy(&[libc::EMFILE, libc::ENFILE, libc::ENOMEM, libc::EACCES])).prop_map(|(k, e)| Fault::OpenNull(k, e)),
+        2 => errno_strategy(&[libc::EAGAIN, libc::ENOMEM]).prop_map(Fault::Fork),
+        1 => (1u8..4).prop_map(Fault::ReadEintr),
+        2 => (0u8..3, errno_strategy(&[libc::EMFILE, libc::EINTR, libc::EBADF])).prop_map(|(k, e)| Fault::Dup(k, e)),
+        2 => errno_strategy(&[libc::EACCES, libc::ENOENT, libc::ENOTDIR, libc::EIO]).prop_map(Fault::Chdir),
+        1 => errno_strategy(&[libc::EPERM, libc::EAGAIN]).prop_map(Fault::Setuid),
+        1 => errno_strategy(&[libc::EPERM]).prop_map(Fault::Setgid),
+        1 => errno_strategy(&[libc::EPERM, libc::EACCES, libc::ESRCH]).prop_map(Fault::Setpgid),
+        2 => errno_strategy(&[libc::ENOENT, libc::EACCES, libc::ENOEXEC, libc::ENOMEM, libc::E2BIG, libc::ETXTBSY]).prop_map(Fault::Execve),
+    ]
+}
+
+pub fn case_strategy() -> impl Strategy<Value = SpawnCase> {
+    (
+        prop_oneof![14 => Just(0u8), 1 => Just(1u8), 1 => Just(2u8)],
+        prop::collection::vec(arg_bytes(), 0..12),
+        prop_oneof![1 => Just(None), 2 => prop::collection::vec(env_entry(), 0..12).prop_map(Some)],
+        prop_oneof![5 => Just(0u8), 4 => Just(1u8), 1 => Just(2u8)],
+        any::<bool>(),
+        any::<bool>(),
+        [0u8..5, 0u8..5, 0u8..5],
+        prop::collection::vec(prop_oneof![9 => Just(0u8), 1 => prop::sample::select(vec![2u8, 13, 5, 1])], 0..3),
+        any::<u8>(),
+        fault_strategy(),
+    )
+        .prop_map(|(prog, args, env, cwd, pgroup, ids, stdio, closures, exit_code, fault)| SpawnCase { prog, args, env, cwd, pgroup, ids, stdio, closures, exit_code, fault })
+}
+
+pub fn run(ctx: &Ctx) {
+    ctx.run_prop("spawn", ctx.cases(250, 8000), case_strategy(), |c| check_spawn(ctx, c));
+}
